@@ -1,7 +1,7 @@
 (** Evaluator glue shared by C01 and C02: one case = configuration, rule
     lists, safe-browsing / parental host sets, safe-search verdicts, request,
     scripted upstream answers, and what the real pipeline was observed to do. *)
-From AGH Require Export Base.Run Base.NetAddr Base.RuleEngine Model.Pipeline Model.PipelineLists.
+From AGH Require Export Base.Run Base.NetAddr Base.RuleEngine Model.Pipeline Model.PipelineLists Model.FilterQueue.
 From AGH Require Model.Rewrites.
 Local Open Scope N_scope.
 
@@ -20,7 +20,25 @@ Inductive lstep :=
   | SAsk (ss : list (bytes * N * ssverdict)) (q : request)
          (ups : list (bytes * option resp)) (up : option resp) (obs : outcome).
 
+(** One step of a history on a server whose rule lists and custom rules are
+    changed through the web API while the updates loop is held back (round
+    4, Model/FilterQueue.v): a handler call, one half of the loop's first
+    arm, the loop left alone until the queue is served; the observed number
+    of queued tasks; a query with what the real pipeline was observed to do
+    with the engines installed at that moment. *)
+Inductive qstep :=
+  | QOp (o : hop)
+  | QPending (n : N)
+  | QAsk (ss : list (bytes * N * ssverdict)) (q : request)
+         (ups : list (bytes * option resp)) (up : option resp) (obs : outcome).
+
 Inductive case :=
+  (* a whole history over one server behind the queue of pending engine
+     rebuilds: the lists, flags and custom rules at the start (engines built
+     from them, loop idle), then the steps; every query must get the outcome
+     of Model/FilterQueue.ask_q in the state reached so far, every count of
+     queued tasks must be the model's *)
+  | CQueue (c : cfg) (st : lstate) (sb par : list bytes) (qsteps : list qstep)
   (* a whole history over one server: the lists with their flags at the
      start, then changes and queries; every query must get the outcome of
      Model/PipelineLists.ask in the state reached so far *)
@@ -146,6 +164,22 @@ Fixpoint run_lists (cf : cfg) (sb par : list bytes) (st : lstate) (steps : list 
 Definition empty_outcome : outcome :=
   mkOutcome None nil (mkResult NotFilteredNotFound false nil nil nil nil None) false false nil.
 
+Definition ask_q_model (cf : cfg) (sb par : list bytes) (s : pstate) ss q ups up : outcome :=
+  ask_q (fun h => mem_bytes h sb) (fun h => mem_bytes h par) (ss_lookup ss) Rewrites.isort s cf (scripted ups up) q.
+
+(** Replays the history behind the queue. *)
+Fixpoint run_queue (cf : cfg) (sb par : list bytes) (s : pstate) (steps : list qstep)
+    : list (outcome * outcome * bool) :=
+  match steps with
+  | nil => nil
+  | QOp o :: rest => run_queue cf sb par (hstep s o) rest
+  | QPending n :: rest =>
+      (empty_outcome, empty_outcome, N.of_nat (length (q_chan s)) =? n) :: run_queue cf sb par s rest
+  | QAsk ss q ups up obs :: rest =>
+      let m := ask_q_model cf sb par s ss q ups up in
+      (m, obs, outcome_eqb m obs) :: run_queue cf sb par s rest
+  end.
+
 (** What the model computes for the first query of the history on which it
     disagrees with the observation (for replay files), else for the last one. *)
 Definition lists_explain (l : list (outcome * outcome * bool)) : outcome :=
@@ -157,6 +191,7 @@ Definition lists_explain (l : list (outcome * outcome * bool)) : outcome :=
 Definition model (c : case) : outcome :=
   match c with
   | CLists cf st sb par steps => lists_explain (run_lists cf sb par st steps)
+  | CQueue cf st sb par steps => lists_explain (run_queue cf sb par (pinit st) steps)
   | CPipe cf allow block sb par ss q ups up _
   | CRepeat cf allow block sb par ss q ups up _ =>
       process (match_request allow) (match_request block)
@@ -168,6 +203,7 @@ Definition model (c : case) : outcome :=
 Definition case_ok (c : case) : bool :=
   match c with
   | CLists cf st sb par steps => forallb (fun x => snd x) (run_lists cf sb par st steps)
+  | CQueue cf st sb par steps => forallb (fun x => snd x) (run_queue cf sb par (pinit st) steps)
   | CPipe _ _ _ _ _ _ _ _ _ obs => outcome_eqb (model c) obs
   | CRepeat _ _ _ _ _ _ _ _ _ obs => repeat_eqb (model c) obs
   end.
